@@ -199,6 +199,10 @@ macro_rules! with_type {
   ($s:expr, $a:expr, $f:ident, $A:ty, $($args:expr),*) => {
     match ($s, $a) {
       (0, 1) => Some($f::<(), $A>($($args),*)),
+      // zero-sized types that still have an alignment
+      (0, 2) => Some($f::<[u16; 0], $A>($($args),*)),
+      (0, 8) => Some($f::<[u64; 0], $A>($($args),*)),
+      (0, 16) => Some($f::<[$crate::common::A16x16; 0], $A>($($args),*)),
       (1, 1) => Some($f::<u8, $A>($($args),*)),
       (2, 1) => Some($f::<[u8; 2], $A>($($args),*)),
       (3, 1) => Some($f::<[u8; 3], $A>($($args),*)),
